@@ -191,7 +191,7 @@ impl<'a> Clone_<'a> {
 		// what a restart would conclude: a ChannelManager read together with this monitor fails these HTLCs
 		// at startup, irreversibly; so none may be listed before the closing transaction is buried
 		let failed = self.mon.verif_onchain_failed_outbound_htlcs();
-		if !failed.is_empty() && !self.buried.contains(&self.commit_txid) {
+		if !failed.is_empty() && !self.buried.contains(&self.commit_txid) && !std::env::var("VERIF_SKIP_JUDGE").map(|v| v.contains("hook")).unwrap_or(false) {
 			return fail(
 				"outbound HTLCs are reported as failed on chain (a restart acts on it) before the closing transaction was buried",
 				format!("{} HTLC(s), first {}, at best height {} commitment confirmed at {:?} (after {})", failed.len(), failed[0], best, self.conf.get(&self.commit_txid), op),
@@ -294,7 +294,8 @@ impl<'a> Clone_<'a> {
 			let w: Vec<String> = watched.iter().filter(|(t, _)| ids.contains_key(t)).map(|(t, v)| format!("{}.{}", ids[t], v)).collect();
 			self.filters.push(format!("{}|{}|{}", w.join(","), txs_s.join(";"), got.iter().map(|x| x.to_string()).collect::<Vec<_>>().join(",")));
 		}
-		if got != expect {
+		// (VERIF_SKIP_JUDGE: mutation experiments only, to see which other judge catches a defect)
+		if got != expect && !std::env::var("VERIF_SKIP_JUDGE").map(|v| v.contains("filter")).unwrap_or(false) {
 			return fail(
 				"filter_block does not keep exactly the transactions spending a watched output or any output of a transaction kept earlier in the block",
 				format!("kept positions {:?}, rule says {:?}; inputs {:?}", got, expect, txs.iter().map(|t| t.input.iter().map(|i| format!("{}", i.previous_output)).collect::<Vec<_>>()).collect::<Vec<_>>()),
@@ -764,7 +765,7 @@ fn scenario(seed: u64, want_model: bool) -> Result<Out, Fail> {
 					keep.push(t);
 					continue;
 				}
-				if rs.below(2) == 0 {
+				if rs.below(4) != 0 {
 					for _ in 0..(1 + rs.below(2)) {
 						dummy = dummy.wrapping_add(1);
 						let at = if rs.below(2) == 0 { 0 } else { rs.below(t.input.len() as u64 + 1) as usize };
@@ -790,7 +791,7 @@ fn scenario(seed: u64, want_model: bool) -> Result<Out, Fail> {
 				let final_ = t.input.iter().all(|i| i.sequence.0 == 0xffff_ffff);
 				let lock_ok = final_ || lt >= 500_000_000 || lt < chain[pj].height;
 				let csv_ok = t.version.0 < 2 || t.input.iter().all(|i| !rel.contains(&i.previous_output.txid) || i.sequence.0 & (1 << 31) != 0 || (i.sequence.0 & 0xffff) == 0);
-				if pj < j && lock_ok && csv_ok && rs.below(3) != 0 {
+				if pj < j && lock_ok && csv_ok && rs.below(5) != 0 {
 					where_.insert(new, pj);
 					chain[pj].txs.push(t);
 				} else {
@@ -1288,6 +1289,82 @@ fn run_one(seed: u64, model: bool) -> String {
 	}
 }
 
+/// Demonstration for finding C11-F2 (`h_chainview f2demo`): a `Confirm` client; a splice and the
+/// counterparty's commitment on it confirm in one block; the block is reorganised out (the client
+/// unconfirms what `get_relevant_txids` lists and moves the best block back); then the counterparty's
+/// commitment on the ORIGINAL funding confirms instead. Prints what the monitor shows at each point.
+fn f2demo() -> String {
+	use lightning::ln::splicing_tests::{do_initiate_splice_in, splice_channel};
+	let chanmon_cfgs = create_chanmon_cfgs(2);
+	let node_cfgs = create_node_cfgs(2, &chanmon_cfgs);
+	let node_chanmgrs = create_node_chanmgrs(2, &node_cfgs, &[None, None]);
+	let nodes = std::mem::ManuallyDrop::new(create_network(2, &node_cfgs, &node_chanmgrs));
+	*nodes[0].connect_style.borrow_mut() = ConnectStyle::FullBlockViaListen;
+	provide_utxo_reserves(&nodes, 4, Amount::from_sat(50_000_000));
+	let (_, _, chan_id, _) = create_announced_chan_between_nodes_with_value(&nodes, 0, 1, 1_000_000, 300_000_000);
+	let contribution = do_initiate_splice_in(&nodes[0], &nodes[1], chan_id, Amount::from_sat(200_000));
+	let (splice_tx, _) = splice_channel(&nodes[0], &nodes[1], chan_id, contribution);
+	let old_commitment = get_local_commitment_txn!(nodes[1], chan_id)[0].clone();
+	let snap = nodes[0].chain_monitor.chain_monitor.get_monitor(chan_id).unwrap().encode();
+	let start_height = nodes[0].best_block_info().1;
+	let b0 = nodes[0].get_block_header(start_height);
+	// node 1 alone sees the splice confirm and is made to broadcast its commitment on the new funding
+	let blk1 = create_dummy_block(nodes[1].best_block_hash(), start_height + 1, vec![splice_tx.clone()]);
+	connect_block(&nodes[1], &blk1);
+	nodes[1].tx_broadcaster.txn_broadcast();
+	let mon1 = nodes[1].chain_monitor.chain_monitor.get_monitor(chan_id).unwrap();
+	mon1.broadcast_latest_holder_commitment_txn(&nodes[1].tx_broadcaster, &nodes[1].fee_estimator, &nodes[1].logger);
+	let mut new_commitment: Option<Transaction> = nodes[1].tx_broadcaster.txn_broadcast().into_iter().find(|t| t.input.iter().any(|i| i.previous_output.txid == splice_tx.compute_txid()));
+	for ev in nodes[1].chain_monitor.chain_monitor.get_and_clear_pending_events() {
+		if let Event::BumpTransaction(BumpTransactionEvent::ChannelClose { commitment_tx, .. }) = ev {
+			new_commitment = Some(commitment_tx);
+		}
+	}
+	let new_commitment = match new_commitment {
+		Some(t) => t,
+		None => return "R {\"ok\":false,\"why\":\"f2demo: no commitment on the splice funding\"}".to_string(),
+	};
+	let mut rd = &snap[..];
+	let (_, mon) = <(BlockLocator, ChannelMonitor<TestChannelSigner>)>::read(&mut rd, (nodes[0].keys_manager, nodes[0].keys_manager)).unwrap();
+	let fee = nodes[0].fee_estimator;
+	let logger = nodes[0].logger;
+	let mut log: Vec<String> = Vec::new();
+	let show = |mon: &ChannelMonitor<TestChannelSigner>, what: &str, log: &mut Vec<String>| {
+		log.push(format!(
+			"{}: best {} alternative_funding_confirmed {:?} relevant {:?}",
+			what,
+			mon.current_best_block().height,
+			mon.verif_alternative_funding_confirmed().map(|(_, h)| h),
+			mon.get_relevant_txids().iter().map(|(t, h, _)| (if *t == new_commitment.compute_txid() { "commitment-on-splice" } else if *t == splice_tx.compute_txid() { "splice" } else { "other" }, *h)).collect::<Vec<_>>()
+		));
+	};
+	let b1 = create_dummy_block(b0.block_hash(), start_height + 1, vec![splice_tx.clone(), new_commitment.clone()]);
+	let txdata: Vec<(usize, &Transaction)> = b1.txdata.iter().enumerate().collect();
+	mon.transactions_confirmed(&b1.header, &txdata, start_height + 1, &NullBroadcaster, fee, logger);
+	mon.best_block_updated(&b1.header, start_height + 1, &NullBroadcaster, fee, logger);
+	show(&mon, "splice and commitment on it confirmed in one block", &mut log);
+	// the block is reorganised out: unconfirm everything listed, best block back
+	loop {
+		let listed = mon.get_relevant_txids();
+		match listed.iter().find(|(_, h, _)| *h > start_height) {
+			Some((t, _, _)) => mon.transaction_unconfirmed(t, &NullBroadcaster, fee, logger),
+			None => break,
+		}
+	}
+	mon.best_block_updated(&b0, start_height, &NullBroadcaster, fee, logger);
+	show(&mon, "after transaction_unconfirmed of everything listed and best_block_updated back", &mut log);
+	let b1b = create_dummy_block(b0.block_hash(), start_height + 101, vec![old_commitment.clone()]);
+	let txdata: Vec<(usize, &Transaction)> = b1b.txdata.iter().enumerate().collect();
+	let r = panic::catch_unwind(AssertUnwindSafe(|| {
+		mon.transactions_confirmed(&b1b.header, &txdata, start_height + 1, &NullBroadcaster, fee, logger);
+	}));
+	match r {
+		Ok(()) => log.push("the commitment on the original funding confirms instead: accepted".to_string()),
+		Err(_) => log.push(format!("the commitment on the original funding confirms instead: PANIC {}", PANIC_MSG.lock().unwrap().replace('\n', " "))),
+	}
+	format!("R {{\"ok\":true,\"f2demo\":[{}]}}", log.iter().map(|l| jstr(l)).collect::<Vec<_>>().join(","))
+}
+
 fn main() {
 	panic::set_hook(Box::new(|info| {
 		*PANIC_MSG.lock().unwrap() = format!("{}", info);
@@ -1307,6 +1384,8 @@ fn main() {
 			}
 			println!("{}", run_one(s, model));
 		}
+	} else if args.len() >= 2 && args[1] == "f2demo" {
+		println!("{}", f2demo());
 	} else if args.len() >= 3 && args[1] == "replay" {
 		println!("{}", run_one(args[2].parse().unwrap(), true));
 	} else {
